@@ -111,6 +111,7 @@ type world struct {
 	sched fnvHash
 	viol  *runner.Violation
 	known []runner.Violation
+	halt  bool // a listed finding manifested: stop judging this run
 
 	opsLeft     int
 	settling    bool
@@ -167,7 +168,8 @@ func (w *world) violate(prop, inv, sig, msg string) {
 			}
 		}
 		w.known = append(w.known, v)
-		w.logf("KNOWN FINDING %s: %s", v.Class(), msg)
+		w.logf("KNOWN FINDING %s: %s (run ends here: what follows a manifested defect is not judged)", v.Class(), msg)
+		w.halt = true
 		return
 	}
 	if w.viol == nil {
@@ -757,7 +759,7 @@ func (w *world) settle(bound int) bool {
 	w.settling = true
 	defer func() { w.settling = save }()
 	for i := 0; i < bound; i++ {
-		if w.viol != nil {
+		if w.viol != nil || w.halt {
 			return true
 		}
 		if w.quiescent() {
